@@ -61,7 +61,7 @@ def _lockrace(c, n, replay=None, name="lockrace"):
 def run(c):
     _prepare()
     c.proofs("theories/Properties/C13.v", clean=(c.tier == "thorough"))
-    c.translate(['TieProto', 'TieRecvLock'])  # T1: formulas / constants regenerated from the source, tie theorems re-checked
+    c.translate(['TieProto', 'TieRecvLock', 'TieOptions'])  # T1: formulas / constants regenerated from the source, tie theorems re-checked
     n = 300 if c.tier == "quick" else 3000
     nrd = 200 if c.tier == "quick" else 3000
     out = None
